@@ -76,6 +76,21 @@ pub fn oracle(c: &Corpus, _seed: u64, _tier: &str) -> Vec<Report> {
             }
         }
     }
+    // other statement kinds of every length, with multi-byte characters at every offset of the text
+    for k in (0..600).step_by(1) {
+        let sql = format!("SELECT '{}{}'", "a".repeat(k), "é𝒳é中");
+        let d = sqlparser::dialect::GenericDialect {};
+        if let G::Val(Ok(v)) = parse(&d, o, &sql) {
+            for st in v {
+                r.evaluations += 1;
+                match guard(move || CreateTableBuilder::try_from(st).map(|b| b.build())) {
+                    G::Val(Err(_)) => r.count("other-kind-err"),
+                    G::Val(Ok(_)) => r.fail("Query/accepted-by-builder".into(), "generic", o, &sql, String::new()),
+                    G::Panic(m) => r.panic("generic", o, &sql, m),
+                }
+            }
+        }
+    }
     r.distinct_nontrivial = tables.len() as u64;
     if let Some(t) = tables.first() { r.sample(serde_json::json!({"create_table": Statement::CreateTable(t.clone()).to_string()})); }
 
